@@ -5,6 +5,7 @@ import (
 	"math"
 	"sort"
 	"strconv"
+	"strings"
 
 	clip "github.com/bolom009/go-clipper2"
 	"vsimrt"
@@ -1236,6 +1237,12 @@ func (c *Ctx) runOp(op *Op) Outcome {
 	var ob *Obj
 	if d.obj != "" {
 		ob = c.obj(op.O)
+	}
+	if ob != nil && ob.dead && !strings.HasSuffix(op.K, ".New") {
+		// an earlier operation on this object panicked or was cut off by the
+		// step budget: its state is undefined, nothing about it is judged
+		c.watches = c.watches[:0]
+		return Outcome{Enc: "not judged: an earlier operation on this object did not run to completion"}
 	}
 	out := protect(c.budget, func(e *Enc, out *Outcome) {
 		d.run(c, op, e, out)
